@@ -78,8 +78,7 @@ theorem C12_nonmatching_ball_is_unchanged (rec : Term → XS → XRes) (n : Nat)
   simp only [propagate] at hr ⊢
   split at hr
   · simp [XRes.oofR] at hr
-  · rename_i h1
-    simp only [h1, if_false, Bool.false_eq_true]
+  · simp only [if_false, Bool.false_eq_true]
     cases hf : fireExc (mkCall rec n) s.pend with
     | none => simp [hf, XRes.oofR] at hr
     | some its => simp
@@ -131,10 +130,9 @@ theorem C12_caught_ball_replaced_by_recovery_ball (rec : Term → XS → XRes) (
 theorem C12_throw_copies_ball (n : Nat) (s : XS) (b b' : Term) (hr : resolve n s.σ b = some b')
     (hv : ∀ v, b' ≠ .var v) :
     throwX n s b = XRes.throw (rename (sfx s.ctr) b', s.ctr + 1) := by
-  simp only [throwX, hr]
   cases b' with
   | var v => exact absurd rfl (hv v)
-  | _ => rfl
+  | _ => simp [throwX, hr]
 
 /-- `throw(_)` with an unbound argument is an instantiation error. -/
 theorem C12_throw_unbound (n : Nat) (s : XS) (b : Term) (v : String)
@@ -305,12 +303,7 @@ theorem C12_cut_runs_pending_handlers_once (call : Call) (s : XS)
   · simp only [h1, if_false, Bool.false_eq_true]
     have := fireCut_cls call s.pend s.σ s.ctr hq (by simpa using h1)
     refine ⟨by simp [this], (fireCut call s.pend s.σ s.ctr).σ, (fireCut call s.pend s.σ s.ctr).ctr, ?_⟩
-    have hna : ∀ (l : List Item), cls l = cls l → True := fun _ _ => trivial
-    clear hna
-    generalize (fireCut call s.pend s.σ s.ctr).items = its
-    generalize (fireCut call s.pend s.σ s.ctr).σ = σ'
-    generalize (fireCut call s.pend s.σ s.ctr).ctr = c'
-    sorry
+    simp [answersOf_append, fireCut_no_answers, answersOf]
 
 /-- a ball leaving a cut scope runs every handler pending in that scope exactly once. -/
 theorem C12_ball_runs_pending_handlers_once (call : Call) (s : XS) (r : XRes) (e : Term × Nat)
@@ -339,7 +332,7 @@ theorem C12_every_handler_runs_at_most_once_and_is_never_lost (ops : List Op)
   rw [run_count x ops init]
   simp only [init, ids, List.map_nil, List.append_nil, List.count_nil, Nat.zero_add]
   split
-  · rename_i hm; exact List.count_eq_one_of_mem hn hm
+  · rename_i hm; exact Proto.count_eq_one_of_nodup _ hn x hm
   · rename_i hm; exact List.count_eq_zero_of_not_mem hm
 
 open Proto in
